@@ -227,6 +227,15 @@ def worker_main(args: dict) -> int:
         out["template"] = {
             k: template.info.get(k) for k in ("origin", "installed", "flavour")
         }
+        from . import specs  # noqa: PLC0415
+
+        specs.set_declared_fields(template.info.get("fields", {}))
+        out["template"]["extra_fields_filled"] = {
+            k: sorted(v) for k, v in specs.EXTRA_FIELDS.items()
+        }
+        out["template"]["declared_fields_not_exercised"] = list(
+            specs.UNEXERCISED_FIELDS
+        )
         run_index = args.get("first_run", 0) + w
         last = args.get("max_runs")
         stop_flag = os.path.join(os.path.dirname(base), "STOP")
